@@ -18,6 +18,7 @@ TIERS = {
     "C14": T(1500, 12000),
     "C15": T(900, 15000),
     "C18": T(2500, 40000),
+    "C19": T(2000, 20000),
     "C20": T(1000, 15000),
 }
 
@@ -51,6 +52,9 @@ ASSUMPTIONS = {
     "C09": ["optimistic state is read immediately after the call, before the simulated bus' answers are processed",
             "function bytes are compared only inside the active function group (bytes of inactive groups are don't-care in MSG_CS_DRIVE)",
             "reserved function bits 5..7 and states other than 0/1 are expected to be rejected"],
+    "C19": ["auto-flush is off and the harness never calls bidib_flush except directly after its own low-level sends",
+            "only report layouts the BiDiB specification defines are generated (MULTIPLE: base and size multiples of 8, size 8..128; POSITION: 5 bytes; OCC/FREE optionally with a timestamp, which the mirror does not carry)",
+            "'must be on the wire' is evaluated at library activations with the FIFO (upper-bound) budget model, 'must not' with the permissive one, as in C03/C04"],
     "C15": ["the simulated bus answers every request; node-new / node-lost notices are injected as uplink messages of the reporting interface",
             "children exist only below nodes whose class has the interface bit"],
     "C20": ["the transcript is judged after all messages deferred by the response budget have left (answers processed)",
